@@ -168,7 +168,7 @@ def run(ctx):
     rng = ctx.rng
     cases = corpus_cases()
     ctx.count("corpus_cases", len(cases))
-    ngen = ctx.pick(260, 5000)
+    ngen = ctx.pick(700, 3000)
     big = not ctx.quick
     cases += [kn.gen_case(rng, big) for _ in range(ngen)]
     res = check_cases(ctx, cases, lmplz, model)
